@@ -13,8 +13,17 @@ Provenance of every rule (nothing is taken from the code under test):
 * anything missing (unknown key, index out of range, a property of a scalar / nil / undefined, an undefined
   index variable) resolves to the configured undefined value -- property statement; docs "Undefined variables".
 
-Not fixed by statement or docs, therefore EXCLUDED (and counted): ``.first`` / ``.last`` on a hash, a negative
-index into a string, a hash that has a key called size/first/last (not in the data).
+* "Python Liquid uses ``__getitem__`` internally for resolving property names" (same section): a hash that has
+  its own key called size / first / last answers with that entry (the key wins over the special property);
+  a bracketed quoted name or a variable holding the name is the same property as the dotted form.
+* a negative index counts from the end (``products[-2]``); one that reaches before the first item
+  (``i < -len``) is out of range like ``i >= len`` and resolves to undefined.
+* an undefined value stored in a variable (``{% assign u = nosuch %}``) stays undefined under every segment
+  -- docs "Default undefined": "you can access properties ... of an undefined variable without error".
+
+Not fixed by statement or docs, therefore EXCLUDED from the reference comparison (and counted): ``.first`` /
+``.last`` on a hash without such a key, a negative index into a string.  Excluded cells are still executed with
+``render`` and ``render_async`` and the two results must be equal (same text or same error class).
 """
 
 from __future__ import annotations
@@ -34,14 +43,23 @@ DATA: dict[str, Any] = {
     "z": None,
     # key / index variables
     "ka": "a", "ksp": "a b", "i1": 1, "im": -1, "ix": {"one": 1, "k": "b"},
+    "im3": -3, "im5": -5, "ksz": "size",
+    # a hash whose keys are named like the special properties
+    "hs": {"size": "XL", "first": {"size": 2, "a": "fa"}, "last": [1, 2], "a": [5, 6, 7]},
 }
-ROOTS = ("arr", "h", "s", "e", "es", "n", "z", "nosuch")
+# `u` is assigned in the template: {% assign u = nosuch %} (an undefined value held by a variable)
+PREFIX = "{% assign u = nosuch %}"
+ROOTS = ("arr", "h", "hs", "s", "e", "es", "n", "z", "nosuch", "u")
 
 # (source text, kind, argument)
 SEGS: list[tuple[str, str, Any]] = [
     (".a", "key", "a"), (".b", "key", "b"), (".c", "key", "c"), (".zz", "key", "zz"),
     ("['a']", "key", "a"), ('["b"]', "key", "b"), ('["a b"]', "key", "a b"),
     ("[0]", "idx", 0), ("[1]", "idx", 1), ("[-1]", "idx", -1), ("[9]", "idx", 9), ("[-9]", "idx", -9),
+    # just inside / just outside every array length in the data (0, 1, 2, 3, 4): -len-1, -len-2, -2*len
+    ("[-2]", "idx", -2), ("[-3]", "idx", -3), ("[-4]", "idx", -4), ("[-5]", "idx", -5), ("[-6]", "idx", -6),
+    ("[-8]", "idx", -8), ("[im3]", "var", ("im3",)), ("[im5]", "var", ("im5",)),
+    ('["size"]', "key", "size"), ("[ksz]", "var", ("ksz",)),
     ("[ka]", "var", ("ka",)), ("[ksp]", "var", ("ksp",)), ("[i1]", "var", ("i1",)), ("[im]", "var", ("im",)),
     ("[kz]", "var", ("kz",)), ("[ix.one]", "var", ("ix", "one")), ("[ix.k]", "var", ("ix", "k")),
     (".size", "size", None), (".first", "first", None), (".last", "last", None),
@@ -79,14 +97,16 @@ def step(obj: Any, kind: str, arg: Any, string_sequences: bool, string_first_and
             kind, arg = "idx", cur
         else:
             return ("excluded", "index variable is neither a string nor an integer")
+    if kind == "key" and arg in ("size", "first", "last"):
+        kind = arg  # the bracketed / variable form names the same property as the dotted form
     if isinstance(obj, dict):
         if kind == "key":
             return obj[arg] if arg in obj else UNDEF
         if kind == "idx":
             return UNDEF
+        if kind in obj:
+            return obj[kind]  # the hash's own entry wins over the special property
         if kind == "size":
-            if "size" in obj:
-                return ("excluded", "hash with a key called size")
             return len(obj)
         return ("excluded", f".{kind} on a hash")
     if isinstance(obj, list):
@@ -156,3 +176,41 @@ def prefix_excluded(root: str, segs: tuple[int, ...], ss: bool, sfl: bool) -> Op
     if isinstance(r, tuple) and r and r[0] == "excluded":
         return str(r[1])
     return None
+
+
+def gen_paths(root: str, ss: bool, sfl: bool, max_segs: int, trail: int = 1) -> list[tuple[int, ...]]:
+    """Every path of 1..max_segs segments from ``root`` in which at most ``trail`` segments follow the first
+    position that is missing (undefined); nothing follows an excluded step.  (Everything after a missing
+    position is undefined again; one more segment checks that, more would only repeat it.)"""
+    out: list[tuple[int, ...]] = []
+
+    def rec(obj: Any, segs: tuple[int, ...], dead: int) -> None:
+        if len(segs) >= max_segs:
+            return
+        for si, (_, kind, arg) in enumerate(SEGS):
+            p = segs + (si,)
+            if obj is UNDEF:
+                out.append(p)
+                if dead + 1 < trail:
+                    rec(UNDEF, p, dead + 1)
+                continue
+            nxt = step(obj, kind, arg, ss, sfl)
+            out.append(p)
+            if isinstance(nxt, tuple) and nxt and nxt[0] == "excluded":
+                continue
+            if nxt is UNDEF:
+                if trail > 0:
+                    rec(UNDEF, p, 0)
+            else:
+                rec(nxt, p, 0)
+
+    start = DATA[root] if root in DATA else UNDEF
+    if start is UNDEF:
+        # a missing / undefined root: one segment, plus `trail` more
+        for si in range(len(SEGS)):
+            out.append((si,))
+            if trail > 0 and max_segs > 1:
+                rec(UNDEF, (si,), 0)
+    else:
+        rec(start, (), 0)
+    return out
